@@ -161,6 +161,26 @@ theorem C02_edge_complete_after_configureLengths {c c' : Chan} {ts : TS} {npre n
   have := hinv.covered p h1 (by omega) h3
   simpa using this
 
+/-- the same for the level clause -/
+theorem C02_level_complete_after_configureLengths {c c' : Chan} {ts : TS} {npre nsamp f0 : Int}
+    {tp : Nat → Int × Int} {n : Nat} {sg : Bool} {zt : ZT} {G : List Nat} {k : Nat} {T0 : Int}
+    (hv : 3 ≤ npre ∧ npre < nsamp) (hem : ts.edgeMulti = false) (hlevel : ts.level = true)
+    (hk : k ≤ G.length) (hbuf : c.buf = G.drop k) (hts : c.ts = ts) (hnpre : c.npre = npre)
+    (hnsamp : c.nsamp = nsamp) (hsync : c.emt.nsamp = nsamp) (hsg : c.signed = sg)
+    (hT0 : c.lastTrig = T0) (hbelow : T0 - f0 < (G.length : Int) + npre - nsamp)
+    (segs : List (List Nat)) {tr : List Int}
+    (hrun : runChan zt tp sg n c (f0 + G.length) segs = some (c', tr)) :
+    ∀ p : Int, (G.length : Int) + npre ≤ p → p + (nsamp - npre) < ((G ++ segs.flatten).length : Int) →
+      levelAtG (cfgChan ts sg) (G ++ segs.flatten) p = true → Near nsamp f0 (T0 :: tr) p := by
+  have h0 : LevelInv ts npre nsamp sg G.length G f0 c [T0] k := by
+    refine ⟨hk, hbuf, ⟨hts, hnpre, hnsamp, hsync, Or.inl hsg⟩, ?_, ?_, Or.inl (by simp [hT0]), Or.inl hk⟩
+    · intro p h1 h2; omega
+    · intro T hT; simp at hT; subst hT; exact hbelow
+  obtain ⟨k', hinv⟩ := runChan_level_inv hv hem hlevel segs n G c [T0] k c' tr h0 hrun
+  intro p h1 h2 h3
+  have := hinv.covered p h1 (by omega) h3
+  simpa using this
+
 /-- `ConfigurePulseLengths` on one channel, when accepted: buffer, trigger settings and hold-off
 reference are kept; the lengths and the edge-multi copy of them are the new ones -/
 theorem configureLengths_epoch (c : Chan) (nsamp npre : Int) (h : (configureLengths c nsamp npre).2 = false) :
